@@ -13,22 +13,23 @@ Definition digits_val (ds : list N) : Z := fold_left (fun a d => a * 10 + (Z.of_
 Record decimal := { d_neg : bool; d_mant : Z; d_exp10 : Z; d_ndig : Z }.
 
 (* -?digits(.digits)?([eE][+-]?digits)?  ; anything else is a ValueError (None) *)
+Definition hd_is (c : N) (s : str) : bool := match s with d :: _ => N.eqb d c | [] => false end.
+
 Definition parse_decimal (s : str) : option decimal :=
-  let '(neg, s1) := match s with 45%N :: r => (true, r) | _ => (false, s) end in
+  let neg := hd_is 45 s in
+  let s1 := if neg then tl s else s in
   let '(ip, s2) := take_digits s1 in
   match ip with
   | [] => None
   | _ =>
-    let '(fp, s3, ok) := match s2 with
-                         | 46%N :: r => let '(f, r') := take_digits r in (f, r', true)   (* "1." is a valid float text *)
-                         | _ => ([], s2, true)
-                         end in
-    if negb ok then None else
+    let '(fp, s3) := if hd_is 46 s2 then take_digits (tl s2) else ([], s2) in      (* "1." is a valid float text *)
     match s3 with
     | [] => Some {| d_neg := neg; d_mant := digits_val (ip ++ fp); d_exp10 := - zlen fp; d_ndig := zlen (ip ++ fp) |}
-    | c :: r =>
-      if (N.eqb c 101 || N.eqb c 69)%bool then
-        let '(eneg, r1) := match r with 45%N :: r' => (true, r') | 43%N :: r' => (false, r') | _ => (false, r) end in
+    | _ =>
+      if hd_is 101 s3 || hd_is 69 s3 then
+        let r := tl s3 in
+        let eneg := hd_is 45 r in
+        let r1 := if eneg || hd_is 43 r then tl r else r in
         let '(ed, r2) := take_digits r1 in
         match ed, r2 with
         | _ :: _, [] =>
